@@ -66,6 +66,7 @@ func cmdCheck(args []string) int {
 		return 2
 	}
 	id := args[0]
+	currentProp = id
 	fs.Parse(args[1:])
 	if t := os.Getenv("VERIF_TIER"); t != "" {
 		*tier = t
@@ -135,6 +136,11 @@ func cmdCheck(args []string) int {
 			rep.Obligations = keepO
 		}
 	}
+	for _, k := range loadKnownFindings(*verif) {
+		if k.Status == "open" && k.Property == id {
+			knownOpen[k.Obligation] = true
+		}
+	}
 	tGen := time.Since(t0)
 	SolveAll(reps, scratch, timeout, seed, need, workers)
 	if *verbose {
@@ -142,6 +148,9 @@ func cmdCheck(args []string) int {
 	}
 	return report(id, cfg, w, reps, *tier, seed, *verif, *repo, time.Since(t0), *verbose, scratch)
 }
+
+// currentProp: the property being checked (clauses tagged @ID are proved only under that property)
+var currentProp string
 
 func hasProp(ps []string, id string) bool {
 	for _, p := range ps {
